@@ -133,7 +133,12 @@ func (l *Linter) lintDeclareStatement(stmt *ast.DeclareStatement, ctx *context.C
 				l.Error(err.Match(DECLARE_STATEMENT_SYNTAX))
 			}
 		}
-		l.lint(stmt.Value, ctx)
+		right := l.lint(stmt.Value, ctx)
+		// The initial value is an assignment to the declared variable, the same type rules apply
+		if ok {
+			op := &ast.Operator{Meta: stmt.Value.GetMeta(), Operator: "="}
+			l.lintAssignOperator(op, stmt.Name.Value, vt, right, isLiteralExpression(stmt.Value))
+		}
 	}
 
 	return types.NeverType
